@@ -148,6 +148,7 @@ def run_problem(rec, prob, kwargs=None, key_prefix="", timeout_ms=60000, max_pat
             return ("crash", e, mk, traceback.format_exc())
         return ("ok", items, mk)
 
+    n_validated = 0
     for res, ctx in explore(fn, max_paths=max_paths, feas_timeout_ms=feas_timeout_ms):
         rec.path(ctx)
         mk = res[2]
@@ -184,6 +185,9 @@ def run_problem(rec, prob, kwargs=None, key_prefix="", timeout_ms=60000, max_pat
                           describe=res[3][-1500:])
             continue
         items = res[1]
+        if n_validated < VALIDATE_PATHS and not rec.fail_fast:
+            n_validated += 1
+            _validate_concretely(rec, prob, kwargs, assumptions, mk, f"{key_prefix}path{rec.paths}")
         for it in items:
             n_items += 1
             sig = _signature(it)
@@ -196,6 +200,97 @@ def run_problem(rec, prob, kwargs=None, key_prefix="", timeout_ms=60000, max_pat
                 seen.add(sig)
                 rec.__dict__.setdefault("_seen_keepalive", []).append((it.code, it.ref))  # ids stay unique while referenced
     return n_items
+
+
+VALIDATE_PATHS = 2
+
+
+class _Shim:
+    pass
+
+
+def _has_uf(e):
+    """Does the term apply an uninterpreted function (SIN/LOG/... or a model function)?"""
+    seen, stack = set(), [e]
+    while stack:
+        t = stack.pop()
+        i = t.get_id()
+        if i in seen:
+            continue
+        seen.add(i)
+        if z3.is_app(t):
+            if t.num_args() > 0 and t.decl().kind() == z3.Z3_OP_UNINTERPRETED:
+                return True
+            stack.extend(t.children())
+    return False
+
+
+def _validate_concretely(rec, prob, kwargs, assumptions, mk, tag):
+    """Validation of the encoding against the implementation: a model of this path's assumptions (inputs kept in a moderate
+    range) is turned into floats and the same problem is run on the real, unstubbed code (real LAPACK / NumPy); every obligation
+    of the problem must hold numerically there.  Counted in the evidence as a trace validated against the implementation; a
+    mismatch (the solver discharged an obligation that the real code violates at a concrete point, i.e. a stub or the engine
+    hides a difference - or the point is ill-conditioned) is recorded in the evidence and never silently dropped."""
+    model = None
+    # (the path's full assumptions first; if the solver does not produce a witness for them quickly - uninterpreted SIN/COS/LOG
+    # facts - the declared input preconditions alone: the concrete run then follows whichever path those inputs take)
+    # The witness query runs in a z3 context of its own: creating terms / solving in the main context shifts z3's internal term
+    # order, and one NRA obligation (C05 softabs dh_dpos) went from unsat in 2 s to unknown after 60 s because of that.
+    ctx2 = z3.Context()
+    for hyps, tmo in ((assumptions, 3000), ([a_ for a_ in assumptions if not _has_uf(a_)], 3000)):
+        s = z3.Solver(ctx=ctx2)
+        s.set("timeout", tmo)
+        for a_ in hyps + mk.bounds():
+            s.add(a_.translate(ctx2))
+        if str(s.check()) == "sat":
+            model = s.model()
+            break
+    if model is None:
+        return
+    try:
+        shim = _Shim()
+        shim.names = {n: v.translate(ctx2) for n, v in mk.names.items()}
+        shim.ufs = {n: f.translate(ctx2) for n, f in (getattr(mk, "ufs", None) or {}).items()}
+        vals = SymMk.values(shim, model)
+    except Exception:  # noqa: BLE001
+        return
+    saved = Ctx.cur
+    Ctx.cur = None
+    try:
+        with np.errstate(all="ignore"):
+            citems = prob(ConcMk(vals), **kwargs)
+    except Skip:
+        return
+    except Exception as e:  # noqa: BLE001
+        rec.validation_mismatches.append(f"{tag}: concrete run raised {type(e).__name__}: {str(e)[:120]}")
+        return
+    finally:
+        Ctx.cur = saved
+    bad_labels = []
+    for it in citems:
+        if it.kind in ("eq", "logabs"):
+            try:
+                if not np.all(np.isfinite(np.asarray(it.ref, dtype=float))):
+                    return  # the witness lies outside the domain of the reference formula (a dropped side condition): no trace
+            except (TypeError, ValueError):
+                pass
+        try:
+            if it.kind == "eq":
+                bad, why = differs(it.code, it.ref, rtol=1e-5)
+            elif it.kind == "logabs":
+                code = float(np.asarray(it.code, dtype=float))
+                ref = float(np.asarray(it.ref, dtype=float))
+                bad, why = differs(code, math.log(ref) if ref > 0 else float("nan"), rtol=1e-5)
+            else:
+                bad, why = (not bool(it.code)), "predicate false"
+        except Exception as e:  # noqa: BLE001
+            bad, why = True, f"{type(e).__name__}: {e}"
+        if bad:
+            bad_labels.append(f"{it.label}: {why}"[:200])
+    if bad_labels:
+        rec.validation_mismatches.append(f"{tag}: {bad_labels[:3]} at {str(vals)[:300]}")
+    else:
+        rec.validated += 1
 
 
 def _signature(it):
